@@ -452,6 +452,49 @@ def loop_iteration_corner_cases(ctx: Ctx, kind: str) -> None:
     judge(app, runner, [inv], "the loop claims a retried invocation while the thread of its first attempt is still winding down", err)
 
 
+def main_thread_signals(ctx: Ctx, for_prop: str = "C11") -> list[dict]:
+    """the runner loop in the MAIN thread of a fresh interpreter (real signal handlers) and a real SIGINT / SIGTERM that lands right
+    after the broker handed a message to the loop (before the claim), or while the loop looks at the waiting marks with a task RUNNING.
+    C11: the stop completes and leaves the invocation final or re-queued, available and nobody's.  (C03 re-uses the runs: with a
+    surviving runner and the recovery services the accepted invocation still reaches a final status.)"""
+    import json
+    import os
+    import subprocess
+    import sys
+    from concurrent.futures import ThreadPoolExecutor
+
+    envv = dict(os.environ)
+    envv["PYTHONPATH"] = os.pathsep.join(p for p in sys.path if p)
+    modes = ["sigint-after-pop", "sigterm-after-pop", "sigterm-in-reclaim"]
+
+    def one(k: int, mode: str) -> dict:
+        arg = {"tmp": ctx.tmp, "app_id": f"c11main{for_prop}{k}", "mode": mode}
+        p = subprocess.run([sys.executable, "-m", "harness.c11_child2", json.dumps(arg)], capture_output=True, text=True, env=envv, timeout=120)
+        lines = [ln for ln in p.stdout.strip().splitlines() if ln.startswith("{")]
+        d = json.loads(lines[-1]) if lines else {"crashed": (p.stderr or p.stdout)[-300:], "rc": p.returncode}
+        d["mode"] = mode
+        return d
+
+    with ThreadPoolExecutor(max_workers=3) as ex:
+        res = list(ex.map(lambda km: one(*km), enumerate(modes)))
+    if for_prop != "C11":
+        return res
+    for d in res:
+        ctx.count()
+        ctx.distinct(("main-thread-signal", d["mode"], d.get("status_after_stop")))
+        rep = {"kind": "main-thread-signal", "mode": d["mode"], "result": d}
+        if "crashed" in d:
+            ctx.obligation("the main-thread signal probe of C11 ran", False, str(d)[:300])
+            continue
+        st = d.get("status_after_stop")
+        ok = d.get("stop_completed") and (st in ("success", "failed", "concurrency_controlled_final") or (st in ("registered", "rerouted", "retry") and d.get("owner_after_stop") is None and (d.get("queued_after_stop") or 0) >= 1))
+        if not ok:
+            ctx.report(f"stop-leaves:{st}:real-signal:{d['mode']}",
+                       f"a ThreadRunner whose loop is the main thread receives a real signal ({d['mode']}): the stop {'completed' if d.get('stop_completed') else 'did NOT complete within 12 s'}"
+                       f"{' raising ' + d['raised'] if d.get('raised') else ''}; the invocation is {st}, owner {d.get('owner_after_stop')}, queued {d.get('queued_after_stop')}x", rep)
+    return res
+
+
 def trs_status(name: str):  # type: ignore[no-untyped-def]
     from pynenc.invocation.status import InvocationStatus
 
@@ -615,6 +658,7 @@ def run(ctx: Ctx) -> None:
             realtime(ctx, kind)
         waiting_parent(ctx, "mem")
         worker_signal_during_cleanup(ctx)
+        main_thread_signals(ctx)
     finally:
         drv.close()
     ctx.assumptions += [
